@@ -1109,6 +1109,13 @@ fn get_empty_action_table(states: &[State], terminals: &[DollarlessTerminalName]
     ensures r@.len() == states@.len() * (terminals@.len() + 1), forall|i: int| 0 <= i < r@.len() ==> #[trigger] r@[i] == Action::Err,
     //@]
 {
+    //@[ proof
+    proof {
+        // the product in either order (non-linear arithmetic is not tried by the solver on its own)
+        vstd::arithmetic::mul::lemma_mul_is_commutative(states@.len() as int, terminals@.len() as int + 1);
+        vstd::arithmetic::mul::lemma_mul_is_commutative(states@.len() as int, 1 + terminals@.len() as int);
+    }
+    //@]
     let size = states.len() * (terminals.len() + 1);
     vec![Action::Err; size]
 }
@@ -1119,6 +1126,9 @@ fn get_empty_goto_table(states: &[State], nonterminals: &[String]) -> /*@[*/(r: 
     ensures r@.len() == states@.len() * nonterminals@.len(), forall|i: int| 0 <= i < r@.len() ==> #[trigger] r@[i] == Goto::Err,
     //@]
 {
+    //@[ proof
+    proof { vstd::arithmetic::mul::lemma_mul_is_commutative(states@.len() as int, nonterminals@.len() as int); }
+    //@]
     let size = states.len() * nonterminals.len();
     vec![Goto::Err; size]
 }
